@@ -816,6 +816,11 @@ func (f *STFS) Rename(oldname, newname string) error {
 		return config.ErrIsFile
 	}
 
+	// A directory can't be moved into its own subtree, however the two paths are spelled
+	if parent.Name == source.Name || strings.HasPrefix(parent.Name, strings.TrimSuffix(source.Name, "/")+"/") {
+		return os.ErrInvalid
+	}
+
 	target, err := inventory.Stat(
 		f.metadata,
 
